@@ -22,6 +22,10 @@ impl Pos {
 
 /// field values of the quantifier: 0, 1, 0x7F.., 0x80.., 0xFF.., value + 1, value - 1; each in both byte orders
 pub const KINDS: u8 = 12;
+/// plus values that stand in a relation to sizes and alignments of the formats (a field that is off by one block,
+/// by one alignment unit, doubled, or equal to a block-header size / alignment / the "stored raw" marker): these
+/// reach arithmetic that only goes wrong for a particular relation between two fields
+pub const KINDS_EXT: u8 = 28;
 
 #[derive(Clone, Debug, Serialize, Deserialize, PartialEq)]
 pub enum Mut {
@@ -39,6 +43,59 @@ pub enum Mut {
     /// overwrite a range with a copy of another range of the same file
     Copy { from: Pos, to: Pos, len: u16 },
     Append(Bytes),
+    /// text formats: operate on one separated field of one line. op: 0 empty it, 1 delete it (with a separator),
+    /// 2 duplicate it, 3..=6 replace it by "0" / "-1" / "99999999999999999999" / "x", 7 delete the line,
+    /// 8 duplicate the line, 9 empty the line
+    Text { line: u16, col: u16, sep: u8, op: u8 },
+}
+
+pub const TEXT_OPS: u8 = 10;
+
+fn text_edit(b: &mut Vec<u8>, line: usize, col: usize, sep: u8, op: u8) {
+    // lines are separated by LF (a CR stays with its line)
+    let mut lines: Vec<Vec<u8>> = b.split(|c| *c == b'\n').map(|l| l.to_vec()).collect();
+    if line >= lines.len() {
+        return;
+    }
+    match op {
+        7 => {
+            lines.remove(line);
+        }
+        8 => {
+            let l = lines[line].clone();
+            lines.insert(line, l);
+        }
+        9 => {
+            let keep_cr = lines[line].ends_with(b"\r");
+            lines[line] = if keep_cr { b"\r".to_vec() } else { vec![] };
+        }
+        _ => {
+            let l = &lines[line];
+            let (body, cr): (&[u8], &[u8]) = if l.ends_with(b"\r") { (&l[..l.len() - 1], b"\r") } else { (&l[..], b"") };
+            let mut cols: Vec<Vec<u8>> = body.split(|c| *c == sep).map(|c| c.to_vec()).collect();
+            if col >= cols.len() {
+                return;
+            }
+            match op {
+                0 => cols[col].clear(),
+                1 => {
+                    cols.remove(col);
+                }
+                2 => {
+                    let c = cols[col].clone();
+                    cols.insert(col, c);
+                }
+                3 => cols[col] = b"0".to_vec(),
+                4 => cols[col] = b"-1".to_vec(),
+                5 => cols[col] = b"99999999999999999999".to_vec(),
+                _ => cols[col] = b"x".to_vec(),
+            }
+            let mut nl = cols.join(&sep);
+            nl.extend_from_slice(cr);
+            lines[line] = nl;
+        }
+    }
+    *b = lines.join(&b'\n');
 }
 
 pub fn field_bytes(orig: &[u8], width: usize, kind: u8) -> Vec<u8> {
@@ -63,7 +120,7 @@ pub fn field_bytes(orig: &[u8], width: usize, kind: u8) -> Vec<u8> {
             x
         }
         _ => {
-            // value +- 1 in the given byte order
+            // derived from the current value in the given byte order, or a format constant
             let mut le: Vec<u8> = orig[..w].to_vec();
             if be {
                 le.reverse();
@@ -72,7 +129,18 @@ pub fn field_bytes(orig: &[u8], width: usize, kind: u8) -> Vec<u8> {
             for (i, b) in le.iter().enumerate() {
                 val |= (*b as u64) << (8 * i);
             }
-            val = if kind < 10 { val.wrapping_add(1) } else { val.wrapping_sub(1) };
+            val = match kind {
+                8 | 9 => val.wrapping_add(1),
+                10 | 11 => val.wrapping_sub(1),
+                12 | 13 => val.wrapping_add(16),
+                14 | 15 => val.wrapping_sub(16),
+                16 | 17 => val.wrapping_add(128),
+                18 | 19 => val.wrapping_sub(128),
+                20 | 21 => val.wrapping_mul(2),
+                22 | 23 => 16,
+                24 | 25 => 128,
+                _ => 32000,
+            };
             (0..w).map(|i| (val >> (8 * i)) as u8).collect()
         }
     };
@@ -95,7 +163,7 @@ pub fn apply_one(b: &mut Vec<u8>, m: &Mut) {
                 return;
             }
             let o = at.at(b.len()).min(b.len() - w);
-            let nb = field_bytes(&b[o..o + w], w, *kind % KINDS);
+            let nb = field_bytes(&b[o..o + w], w, *kind % KINDS_EXT);
             b[o..o + w].copy_from_slice(&nb);
         }
         Mut::Flip { at, bit } => {
@@ -140,6 +208,7 @@ pub fn apply_one(b: &mut Vec<u8>, m: &Mut) {
             b[t..te].copy_from_slice(&chunk[..te - t]);
         }
         Mut::Append(d) => b.extend_from_slice(&d.0),
+        Mut::Text { line, col, sep, op } => text_edit(b, *line as usize, *col as usize, *sep, *op % TEXT_OPS),
     }
 }
 
@@ -162,6 +231,7 @@ pub fn kind_name(m: &Mut) -> &'static str {
         Mut::Dup { .. } => "duplicate",
         Mut::Copy { .. } => "copy-range",
         Mut::Append(_) => "append",
+        Mut::Text { .. } => "text-field",
     }
 }
 
@@ -180,7 +250,7 @@ pub fn random_mut() -> BoxedStrategy<Mut> {
     let pos = any::<u16>().prop_map(Pos::Frac);
     prop_oneof![
         3 => pos.clone().prop_map(Mut::Trunc),
-        8 => (pos.clone(), prop::sample::select(vec![1u8, 2, 4, 8]), 0..KINDS).prop_map(|(at, width, kind)| Mut::Set { at, width, kind }),
+        8 => (pos.clone(), prop::sample::select(vec![1u8, 2, 4, 8]), 0..KINDS_EXT).prop_map(|(at, width, kind)| Mut::Set { at, width, kind }),
         3 => (pos.clone(), 0u8..8).prop_map(|(at, bit)| Mut::Flip { at, bit }),
         3 => (pos.clone(), any::<u8>()).prop_map(|(at, val)| Mut::Byte { at, val }),
         2 => (pos.clone(), junk()).prop_map(|(at, data)| Mut::Insert { at, data }),
@@ -188,6 +258,7 @@ pub fn random_mut() -> BoxedStrategy<Mut> {
         1 => (pos.clone(), prop_oneof![3 => 1u16..64, 1 => 1u16..2000]).prop_map(|(at, len)| Mut::Dup { at, len }),
         1 => (pos.clone(), pos.clone(), 1u16..64).prop_map(|(from, to, len)| Mut::Copy { from, to, len }),
         1 => junk().prop_map(Mut::Append),
+        2 => (0u16..40, 0u16..12, prop::sample::select(vec![b'\t', b',', b' ', b':']), 0..TEXT_OPS).prop_map(|(line, col, sep, op)| Mut::Text { line, col, sep, op }),
     ]
     .boxed()
 }
